@@ -10,12 +10,15 @@ allocations in every alias mode and compare ALLOC(w), SIZ(w) and the value with 
 from genlib import *
 
 LEAN_MODULES = ["MpirProofs.Props.C04_allocsafe5"]
-THEOREMS = ["Mpir.AllocSafe5." + t for t in ("mpz_import_alloc_safe", "importLimbs_length", "importLimbs_limbs", "mpz_lcm_one_alloc_safe_partial", "lcmOne_refines", "Spec.lcmOne_spec", "mpz_gcd_small_alloc_safe_partial", "gcdOne_refines", "gcdZero_refines", "mpz_lcm_small_alloc_safe_partial", "lcmOne_safe", "mpz_gcd_tail_alloc_safe_partial", "lshift_carry", "stripLow_fits")]
+THEOREMS = ["Mpir.AllocSafe5." + t for t in ("mpz_import_alloc_safe", "importLimbs_length", "importLimbs_limbs", "mpz_lcm_one_alloc_safe_partial", "lcmOne_refines", "Spec.lcmOne_spec", "mpz_gcd_small_alloc_safe_partial", "gcdOne_refines", "gcdZero_refines", "mpz_lcm_small_alloc_safe_partial", "lcmOne_safe", "mpz_gcd_tail_alloc_safe_partial", "lshift_carry", "stripLow_fits", "mpz_gcd_alloc_safe", "gcdGeneral_refines", "gcdTail_refines", "stripLow_spec", "gcd_odd_shift", "mpz_lcm_alloc_safe", "lcmGeneral_safe", "divexact_tmp", "mpz_gcd_genOk")]
 TRUSTED = ["hand-written size-aware models lean/Mpir/Model/AllocSafeMpz5.lean (mpz/import.c, gcd.c, lcm.c, divexact.c on the memory model of "
            "AllocSafe.lean; TMP_ALLOC_LIMBS (n) = a block of its own that no variable points to; mpn_gcd_1 / mpn_gcd / mpn_divexact = their "
            "contracts: the value, at most min (usize, vsize) resp. exactly nn - dn + 1 limbs stored (C07 / C02)), tied by exact comparison of "
            "ALLOC(w), SIZ(w), value in every alias mode, and by source pins"]
-ASSUMPTIONS = ["mpz_import: `count * (8*size - nail)` does not overflow size_t; the caller's data has count * size bytes (the model's byte indices "
+ASSUMPTIONS = ["callee contracts as the models state them: mpn_gcd (gp, up, un, vp, vn) leaves natLimbs (gcd (U, V)) at gp and returns their count "
+               "(value: C07 mpn_gcd_correct; that these limbs fit the operand block is PROVED in gcdGeneral_refines, not assumed); mpn_gcd_1 returns "
+               "gcd (U, vl); mpn_divexact stores exactly nn - dn + 1 limbs holding N / D",
+               "mpz_import: `count * (8*size - nail)` does not overflow size_t; the caller's data has count * size bytes (the model's byte indices "
                "staying inside them is checked on every run by the driver, not proved)",
                "the `while (*up == 0) up++` loops of gcd.c:82, 97 are checked as a read of the |size| limbs of the (non-zero) operand"]
 RULE = ("allocsafe5: import with every order / endian / nail 0..8*size / word size 1..17 / count 0..9, aligned (fast paths) and misaligned data, "
